@@ -6,6 +6,7 @@ package jlib
 
 import (
 	"fmt"
+	"math"
 	"reflect"
 
 	"github.com/blues/jsonata-go/jtypes"
@@ -32,6 +33,10 @@ func Sum(v reflect.Value) (float64, error) {
 			return 0, fmt.Errorf("cannot call sum on an array with non-number types")
 		}
 		sum += n
+	}
+
+	if math.IsInf(sum, 0) || math.IsNaN(sum) {
+		return 0, fmt.Errorf("the sum function has resulted in a value that cannot be represented as a JSON number")
 	}
 
 	return sum, nil
@@ -125,5 +130,9 @@ func Average(v reflect.Value) (float64, error) {
 		sum += n
 	}
 
-	return sum / float64(v.Len()), nil
+	if avg := sum / float64(v.Len()); !math.IsInf(avg, 0) && !math.IsNaN(avg) {
+		return avg, nil
+	}
+
+	return 0, fmt.Errorf("the average function has resulted in a value that cannot be represented as a JSON number")
 }
